@@ -1,0 +1,38 @@
+//go:build verif
+
+package dawg
+
+//VerifNode describes one reachable node of a Dawg for the verification harness in /verif.
+//This file is only compiled with the build tag verif.
+type VerifNode struct {
+	ID       uint64
+	Final    bool
+	NumWords int
+	Labels   []byte
+	Targets  []int //Indices into the slice returned by VerifNodes.
+}
+
+//VerifNodes returns every node reachable from t, identified by pointer, in breadth first discovery order. The root is entry 0.
+func (t *Dawg) VerifNodes() []VerifNode {
+	index := map[*Dawg]int{t: 0}
+	order := []*Dawg{t}
+	for i := 0; i < len(order); i++ {
+		for _, child := range order[i].links {
+			if _, ok := index[child]; !ok {
+				index[child] = len(order)
+				order = append(order, child)
+			}
+		}
+	}
+	nodes := make([]VerifNode, len(order))
+	for i, d := range order {
+		labels := make([]byte, len(d.linkLabels))
+		copy(labels, d.linkLabels)
+		targets := make([]int, len(d.links))
+		for j, child := range d.links {
+			targets[j] = index[child]
+		}
+		nodes[i] = VerifNode{ID: d.id, Final: d.final, NumWords: d.numWords, Labels: labels, Targets: targets}
+	}
+	return nodes
+}
